@@ -144,16 +144,21 @@ def check_wrapper(ctx, m, g, kind):
 
 
 def run(ctx):
+    from . import c05
     C.corpus_must_compile(ctx, "C03.compile")
     for m, g in C.pairs(ctx):
         ctx.program(m.key)
         for kind in ENUM_KINDS:
             check_list_eq_wire(ctx, m, g, kind)
+            # the wrapper routes by membership in the parts' lists; that exactly one part can claim a name rests on the compile-time
+            # overlap scan (C05), whose merge walk is only sound over sorted lists: a necessary condition of "exactly one part accepts"
+            c05.check_sorted(ctx, m, g, kind, rule="C03.f-sorted")
             if m.kind == "contract":
                 check_wrapper(ctx, m, g, kind)
     C.corpus_adequacy(ctx, enforce=False)
     ctx.floor("C03.b-deserialize", 90)
     ctx.floor("C03.d-list-eq-wire", 150)
+    ctx.floor("C03.f-sorted", 150)
     return check.finish(
         ctx, "translation_validation",
         "per contract-level wrapper: variants vs declared parts (payload accessor, module, kind), control-flow skeleton of the hand-written Deserialize (generic value -> map -> len==1 -> string key -> one membership test + deserialize_into + variant per part -> error built from all lists), untagged Serialize + From impls, panic-site census; per item and kind: published list == serde VARIANTS == Serialize wire names",
